@@ -165,6 +165,9 @@ pub struct Knobs {
     pub chunk_seed: u64,
     /// honour lipe-scan-break (off in the reference run, which wants every file's records)
     pub honour_break: bool,
+    /// files are not pre-assigned: every scanner thread takes the next unscanned file when it is
+    /// free (which thread scans which file is then up to the schedule)
+    pub dynamic_assignment: bool,
     /// None: a display reaches the destination at once (unbuffered / line-buffered port).
     /// Some(cap): ports are block-buffered with this capacity (in characters), as Guile's are
     /// on pipes and files: a display is an unsynchronised read-modify-write of the port's
@@ -189,6 +192,8 @@ pub struct Runtime {
     calls: AtomicU64,
     /// lock attempts that found the mutex held by another thread (a switch happened inside a record)
     pub contended: AtomicU64,
+    /// next file to hand out under dynamic assignment
+    next_file: AtomicUsize,
     /// names that are the target of a set! somewhere in the program: their reads can race
     assigned: StdMutex<std::collections::BTreeSet<String>>,
     /// channel to the scheduler (stall requests)
@@ -356,6 +361,7 @@ impl Runtime {
             stop: AtomicBool::new(false),
             calls: AtomicU64::new(0),
             contended: AtomicU64::new(0),
+            next_file: AtomicUsize::new(0),
             assigned: StdMutex::new(Default::default()),
             sched: StdMutex::new(None),
         }
@@ -1510,6 +1516,27 @@ impl Runtime {
         while part < self.knobs.partition.len() {
             files.extend(self.knobs.partition[part].iter().copied());
             part += threads.max(1);
+        }
+        if self.knobs.dynamic_assignment && self.concurrent {
+            // pull model: take the next file nobody has taken yet
+            loop {
+                self.point();
+                if self.knobs.honour_break && self.stop.load(Ordering::SeqCst) {
+                    break;
+                }
+                let file = self.next_file.fetch_add(1, Ordering::SeqCst);
+                if file >= self.files.len() {
+                    break;
+                }
+                let mut ctx = Ctx::new(thread);
+                ctx.file = file;
+                self.ev(Ev::FileStart { thread, file });
+                if let Err(error) = self.apply(thunk, vec![], &mut ctx) {
+                    self.ev(Ev::Error { thread, file, error });
+                }
+                self.ev(Ev::FileEnd { thread, file });
+            }
+            return;
         }
         for file in files {
             self.point();
